@@ -1369,6 +1369,15 @@ func main() {
 		case "-error":
 			mode = "error"
 			args = args[1:]
+		case "-writer":
+			mode = "writer"
+			args = args[1:]
+		case "-cache":
+			mode = "cache"
+			args = args[1:]
+		case "-startup":
+			mode = "startup"
+			args = args[1:]
 		case "-o":
 			if len(args) < 2 {
 				usage()
@@ -1402,15 +1411,21 @@ func main() {
 		fmt.Print(translateCopy(root, bt))
 	case "error":
 		fmt.Print(translateError(root, bt))
+	case "writer":
+		fmt.Print(translateWriter(root, bt))
+	case "cache":
+		fmt.Print(translateCache(root))
 	case "both":
 		writeIfChanged(filepath.Join(dir, "Trans.lean"), trans)
 		writeIfChanged(filepath.Join(dir, "TransCopy.lean"), translateCopy(root, bt))
 		writeIfChanged(filepath.Join(dir, "TransError.lean"), translateError(root, bt))
+		writeIfChanged(filepath.Join(dir, "TransWriter.lean"), translateWriter(root, bt))
+		writeIfChanged(filepath.Join(dir, "TransCache.lean"), translateCache(root))
 	}
 }
 
 func usage() {
-	fmt.Fprintln(os.Stderr, "usage: pwtranslate [-copy | -error | -o <dir>] <repo>")
+	fmt.Fprintln(os.Stderr, "usage: pwtranslate [-copy | -error | -writer | -cache | -startup | -o <dir>] <repo>")
 	os.Exit(2)
 }
 
